@@ -9,6 +9,10 @@ from . import spawner as SP
 
 def check(ctx: Ctx) -> None:
     N.r_register_membership(ctx, "R10.1")
+    # a group leaves the table only together with the cancellation of its spawners and members: a cancel_group that fails
+    # half-way leaves running tasks that belong to no live group (premise shared with C07)
+    from . import cancel as K
+    K.r_cancel_group_entry(ctx, "R10.7")
     r_group_table_who(ctx, "R10.1w")
     S.r_wiring(ctx, "R10.2", {"GROUP"}, 8, "group name role")
     A.r_one_spawner_per_request(ctx, "R10.2r")
